@@ -559,13 +559,20 @@ func checkAggCase(res *Result, ac *aggCase, U []absSig, idx int, repeats int) {
 		}
 		// the classes do not depend on what the snapshot was used for before: coarser levels first
 		if first != nil {
-			for _, lv2 := range []stack.Similarity{stack.AnyValue, stack.AnyPointer, stack.ExactLines, stack.ExactFlags} {
-				_ = snap.Aggregate(lv2)
-			}
-			if again := projAgg(snap.Aggregate(lvl)); !reflect.DeepEqual(idSets(want), idSets(again)) {
-				res.violation(mk("C05", "classes-after-history", route+": after aggregating the same snapshot at the other levels, the buckets at this level are no longer the similarity classes", idSets(want), idSets(again)))
-				res.violation(mk("C14", "mutated", route+": earlier aggregations changed what a later one returns", idSets(want), idSets(again)))
-			}
+			func() {
+				defer func() {
+					if r := recover(); r != nil {
+						res.violation(mk("C03", "panic", fmt.Sprintf("%s: aggregating the snapshot at every level panicked: %v", route, r), nil, fmt.Sprint(r)))
+					}
+				}()
+				for _, lv2 := range []stack.Similarity{stack.AnyValue, stack.AnyPointer, stack.ExactLines, stack.ExactFlags} {
+					_ = snap.Aggregate(lv2)
+				}
+				if again := projAgg(snap.Aggregate(lvl)); !reflect.DeepEqual(idSets(want), idSets(again)) {
+					res.violation(mk("C05", "classes-after-history", route+": after aggregating the same snapshot at the other levels, the buckets at this level are no longer the similarity classes", idSets(want), idSets(again)))
+					res.violation(mk("C14", "mutated", route+": earlier aggregations changed what a later one returns", idSets(want), idSets(again)))
+				}
+			}()
 		}
 	}
 }
